@@ -71,7 +71,10 @@ def generate(rng: random.Random, tier: str) -> dict:
             s["timeout"] = rng.choice([30, 1.5, "45", "2.5", 0])
         if rng.random() < 0.2:
             s["extra"] = {"disabled": False, "note": "x"}
-        s["fault"] = rng.choice([None, None, None, "slow_answer", "chunked", "junk_first", "unstartable"])
+        s["fault"] = rng.choice([None, None, None, "slow_answer", "chunked", "junk_first", "unstartable", "chatty_stderr"])
+        if rng.random() < 0.12:
+            # a configured environment that asks for quiet logging
+            s["env"] = dict(s.get("env") or {}, **{rng.choice(["LOG_LEVEL", "LOGGING_LEVEL"]): rng.choice(["ERROR", "error", "CRITICAL", "Critical"])})
         servers.append(s)
     # unique names
     seen = set()
@@ -207,6 +210,9 @@ def _execute(scn: dict) -> dict:
             c = {"read_mode": "eager", "responder": responder_for(child_idx), "term_latency": ticks(1), "eof_exit_latency": ticks(1)}
             if spec.get("fault") == "unstartable":
                 c["spawn_error"] = "FileNotFoundError"
+            if spec.get("fault") == "chatty_stderr":
+                c["stderr_chatter"] = 200_000   # more diagnostics on stderr than a pipe holds, written before the first answer
+                sim.fault("child_writes_over_64k_to_stderr")
             return c
 
         factory = ProcessFactory(sim, cfg)
